@@ -14,7 +14,7 @@ THEOREMS = [
     "XcmModel.C19.C19_path_no_longer", "XcmModel.C19.C19_path_rejects_long",
     "XcmModel.C19.C19_path_comp_bound", "XcmModel.C19.C19_path_parse_wf",
     "XcmModel.FuncsTie.is_special_tie", "XcmModel.FuncsTie.is_key_char_tie",
-    "XcmModel.AttrTreeProps.listed_is_found", "XcmModel.AttrTreeProps.found_is_listed", "XcmModel.AttrTreeProps.allValues_add_readable",
+    "XcmModel.AttrTreeProps.listed_is_found", "XcmModel.AttrTreeProps.found_is_listed", "XcmModel.AttrTreeProps.walk_found_is_listed", "XcmModel.AttrTreeProps.allValues_add_readable",
 ]
 
 
